@@ -1,17 +1,38 @@
 """C09 — parallel execution returns bit-identical results to serial execution (DESIGN.md 6/C09).
 
 Tie (both mechanisms):
-  * translator harness/translate/c09_footprint.py regenerates Generated/ParFootprint.lean from
-    srs.py / fdepsd.py on every run; `generated_footprints_ok` is then re-proved by `decide`;
-  * correspondence: (a) the footprint is validated behaviourally — every worker is run in-process on
-    recording arrays and the cells it really writes/reads are compared with what the Lean `covers`
-    (Drivers/C09.lean) says the generated patterns touch; (b) `srs.srs` / `fdepsd.fdepsd` with
-    parallel='yes', several worker counts and completion orders forced from the harness, compared
-    BIT FOR BIT with parallel='no' (this comparison is also the model-free oracle).
+  * translators harness/translate/c09_footprint.py (worker side: access footprints, worker body == serial
+    loop body) and harness/translate/c09_parent.py (parent side: the decision `_process_parallel`, the
+    shared-memory helpers, every pool site: task list, shared allocations with symbolic shapes, argument
+    tuple, serial loop header, copy-out, where the peak function is called) regenerate
+    Generated/ParFootprint.lean and Generated/ParFootprintParent.lean from srs.py / fdepsd.py on every run;
+    `generated_footprints_ok`, `generated_parent_ok`, `generated_decision_is_std`, … are then re-proved by
+    `decide`;
+  * correspondence:
+    (a) footprints validated behaviourally — every worker is run in-process on recording arrays and the
+        cells it really writes/reads are compared with what the Lean `covers` says the generated patterns
+        touch; the writers of every cell are compared with Lean's `ownerOf`, and Lean's `part` (exactly one
+        covering task per cell) is evaluated on the concrete shapes;
+    (b) decision: the real `srs._process_parallel` (cpu count and platform substituted) against the Lean
+        interpreter of the REGENERATED table, exactly, over a grid around every threshold;
+    (c) parent plan: `srs.srs` / `fdepsd.fdepsd` run with `multiprocessing.Pool` replaced by a recording,
+        in-process pool that executes the tasks in a prescribed order: pool size, initialiser, worker
+        function, task list, shapes / element type / zero fill of every shared array, argument tuple
+        compared exactly with the plan the Lean model computes from the regenerated site table; outputs
+        compared bit for bit with parallel='no' for EVERY permutation of <= 4 tasks (5 in thorough);
+    (d) real pool: parallel='yes' with worker counts 1..#tasks+1, maxcpu None / 1 / 2 / large, completion
+        orders forced by harness-side delays (every permutation of <= 3 tasks, 4 in thorough; random
+        patterns for more), layouts (C / F / strided / reversed), dtypes, every ic x stype x peak x time x
+        getresp x eqsine, roll-off methods; fdepsd: resp x rolloff x ppc x hpfilter x detrend x winends x
+        nbins; compared BIT FOR BIT with parallel='no' (this comparison is also the model-free oracle);
+    (e) call sequences: serial then parallel, parallel twice, histories on then off, results of an
+        earlier call unchanged by a later one, leftover module globals.
 """
+import contextlib
 import itertools
 import multiprocessing as mp
 import os
+import sys
 import time
 import warnings
 
@@ -20,68 +41,122 @@ import numpy as np
 from runner import Infra, TieBroken
 
 ID = "C09"
-LEAN_MODULES = ["PyYetiVerif.Props.C09", "PyYetiVerif.Audit.C09"]
+LEAN_MODULES = ["PyYetiVerif.Props.C09", "PyYetiVerif.Props.C09Parent", "PyYetiVerif.Audit.C09"]
 AUDIT_FILE = "PyYetiVerif/Audit/C09.lean"
 THEOREMS = [
     "PyYetiVerif.C09." + n
     for n in (
         "schedule_independent parallel_eq_serial final_is_solo footprint_gives_hyp "
-        "generated_footprints_ok generated_workers_complete"
+        "generated_footprints_ok generated_workers_complete "
+        # parent side
+        "generated_decision_is_std generated_helpers_std process_parallel_auto_rule process_parallel_yes_rule "
+        "process_parallel_no_rule generated_pickle_guard_std auto_rule yes_rule no_rule unpicklable_peak_runs_serially "
+        "picklable_peak_decision_unchanged invalid_option_raises "
+        "pool_size_bounds pool_size_ignores_task_count generated_parent_ok generated_sites_complete "
+        "generated_serial_is_worker_loop tasks_partition_outputs generated_outputs_partitioned "
+        "assembly_eq_serial generated_srs_owner srs_hyp srs_final_cells peak_applied_once "
+        "getresp_histories_eq_serial srs_routine_eq_serial generated_peak_travels_in_task_tuple"
     ).split()
 ]
 TRUSTED = [
-    "translator harness/translate/c09_footprint.py (Python ast; grammar stated in its docstring), cross-checked "
-    "behaviourally on recording arrays every run",
+    "translators harness/translate/c09_footprint.py and c09_parent.py (Python ast; grammars stated in their "
+    "docstrings; anything outside them breaks the tie), cross-checked behaviourally every run (recording arrays, "
+    "recording pool)",
     "worker bodies are deterministic functions of (j, read-only inputs): scipy.signal.lfilter, numpy reductions, "
-    "cyclecount.findap/rainflow are assumed deterministic within one process",
-    "multiprocessing.RawArray / np.frombuffer give plain shared memory with atomic element writes",
-    "OS scheduling cannot be exhibited by the model; completion orders are sampled by harness-side delays",
+    "cyclecount.findap/rainflow are assumed deterministic within one process and across forked processes",
+    "multiprocessing.RawArray / np.frombuffer give plain shared memory with atomic element writes; "
+    "Pool.imap_unordered calls the function exactly once per item and its iterator ends only when all have returned",
+    "OS scheduling cannot be exhibited by the model; completion orders are enumerated exactly on the recording "
+    "in-process pool and sampled on the real pool by harness-side delays",
 ]
 RULE = (
-    "a case is one (routine, options, signal, frequency vector, worker count, forced delay pattern) whose parallel "
-    "outputs are compared bit for bit with the serial outputs; non-trivial = at least 2 tasks ran on at least 2 "
-    "workers and the observed completion order differs from the submission order; distinct by the option tuple, "
-    "delay seed and observed order"
+    "a case is one (routine, options, signal, frequency vector, worker count, completion order) whose parallel "
+    "outputs are compared bit for bit with the serial outputs; on the recording pool the order is prescribed (all "
+    "permutations of <= 4 tasks), on the real pool it is forced by delays and the observed order is recorded; "
+    "non-trivial = at least 2 tasks and a completion order different from the submission order (real pool: on at "
+    "least 2 workers); distinct by the option tuple, order and pool kind.  Decision cases: one argument tuple of "
+    "_process_parallel with a substituted cpu count / platform, compared exactly with the Lean interpreter"
 )
-ASSUMPTIONS = ["fork start method (Linux default for multiprocessing.Pool in this Python)"]
+ASSUMPTIONS = ["fork start method (Linux default for multiprocessing.Pool in this Python)",
+               "maxcpu is None or a non-negative integer",
+               "pickle.dumps(f) raises exactly for the functions the pool cannot hand over (PeakArg.unpicklable of the model)"]
 PARTIAL = (
-    "partial: schedule-independence is proved for the modelled protocol (tasks = deterministic step functions over "
-    "shared cells, footprints extracted from the source); OS scheduling, RawArray semantics and library code paths "
-    "inside worker processes are sampled by the run-time bit comparison only"
+    "partial: proved for the modelled protocol — schedule independence (tasks = deterministic step functions over "
+    "shared cells, footprints regenerated from the source), the decision rule, the partition of the output arrays by "
+    "the tasks' cells for any sizes, equality of the assembled outputs with the serial routine's (which starts from "
+    "np.empty arrays) for every complete schedule, peak / eqsine applied once, histories equal.  NOT proved, sampled "
+    "by the run-time comparison only: OS scheduling, RawArray / fork semantics (that a child's write is what the "
+    "parent later reads), that Pool.imap_unordered runs every task exactly once and returns after all have finished, "
+    "library code paths inside worker processes (lfilter, findap, rainflow taken as deterministic functions), and "
+    "that a finished worker has written every cell its write patterns cover (hypothesis `hTot` of "
+    "assembly_eq_serial; checked on recording arrays).  fdepsd's post-processing (G1 … G12, data frames) enters "
+    "the theorem as an arbitrary function `post` of the output cells: that it is the same code on both paths is a "
+    "regenerated fact (the tail does not mention `parallel`), its arithmetic is not modelled here (C10).  The override of "
+    "srs.srs for a `peak` function that cannot be pickled (F53, repaired) is in the decision model (`yes_rule`, "
+    "`auto_rule` take the peak argument as an input); what pickle accepts is an input of the model, not modelled"
 )
 MANIFEST = {
-    "level_text": "Proof (Lean 4) that in any system of deterministic tasks whose writes go only to cells owned by the "
-    "task and whose steps depend only on read-only cells and the task's own cells, every complete schedule (any "
-    "interleaving, worker count, completion order) ends in the same shared memory as serial execution "
-    "(`schedule_independent`, `parallel_eq_serial`), that a well-formed access footprint implies those hypotheses "
-    "(`footprint_gives_hyp`), and — re-proved by `decide` on a table regenerated from srs.py/fdepsd.py on every run — "
-    "that the five worker functions have well-formed footprints and are textually their serial loop bodies "
-    "(`generated_footprints_ok`). Run-time: footprints validated on recording arrays against Lean's `covers`, and "
-    "parallel outputs compared bit for bit with serial under forced completion orders. Partial by nature: the runtime "
-    "(OS scheduler, shared-memory semantics) is outside any model.",
-    "level_note": "Trusted: Lean kernel (axioms propext, Quot.sound), the ast translator (grammar in its docstring; "
-    "anything outside it breaks the tie), determinism of scipy/numpy kernels inside a worker, fork start method.",
-    "technique": "Lean 4 proof of schedule independence (simulation invariant over interleavings) + source-to-Lean "
-    "footprint translator re-checked by decide + run-time bit comparison under forced completion orders",
+    "level_text": "Proof (Lean 4), worker side: in any system of deterministic tasks whose writes go only to cells "
+    "owned by the task and whose steps depend only on read-only cells and the task's own cells, every complete "
+    "schedule (any interleaving, worker count, completion order) ends in the same shared memory as serial execution "
+    "(`schedule_independent`, `parallel_eq_serial`); a well-formed access footprint implies those hypotheses "
+    "(`footprint_gives_hyp`).  Parent side: the decision stated outright for the regenerated tables, with the `peak` "
+    "argument as an input (`auto_rule`: pool iff LF > 1 and size > 50000 and not getresp and cpu count > 1 and not "
+    "Windows and `peak` is not a function pickle refuses; `yes_rule`: the pool unless `peak` is such a function — "
+    "`unpicklable_peak_runs_serially`, regenerated guard `generated_pickle_guard_std` (repair F53); the helper alone, "
+    "as fdepsd uses it: `process_parallel_auto_rule / _yes_rule / _no_rule`); pool size = maxcpu if 0 < maxcpu < cpu count, else 4/5 of the cpu count above four CPUs, else the "
+    "cpu count — it does not depend on the number of tasks; `no_rule`, `invalid_option_raises`, `pool_size_bounds`); "
+    "`tasks_partition_outputs` / `generated_outputs_partitioned`: for the regenerated footprints and shared-array "
+    "shapes and ANY number of frequencies, columns, time steps and bins every cell of every output array is "
+    "written by exactly one task; `assembly_eq_serial`: outputs after copy-out and any post-processing equal the "
+    "serial routine's for every complete schedule although the serial routine starts from np.empty arrays; on the "
+    "srs worker system `peak_applied_once` (each spectrum cell = eqsine scaling applied once to the peak function "
+    "applied once to the response of its frequency, on both paths), `getresp_histories_eq_serial`, "
+    "`srs_routine_eq_serial`.  Re-proved by `decide` on tables regenerated from srs.py / fdepsd.py on every run: "
+    "the five worker footprints are well-formed and the workers are textually their serial loop bodies under a "
+    "renaming derived from the parent's own copy-in / copy-out statements (`generated_footprints_ok`), the pool "
+    "sites pass `siteOk` (`generated_parent_ok`: task list zip(range(LF), repeat(args, LF)), serial loop over the "
+    "same index set with the same argument expressions in the same order — `generated_serial_is_worker_loop` —, "
+    "every written array zero-filled with covered slabs and the same shape as its serial counterpart, np.empty "
+    "arrays never read, inputs copied in, peak function called once in the worker and the serial body and never by "
+    "the parent, path-independent tail), the helpers use C doubles viewed as float64 (`generated_helpers_std`).",
+    "level_note": "Tied, not proved: footprints and ownership validated on recording arrays against Lean's "
+    "`covers` / `ownerOf` / `part`; the decision against the Lean interpreter over a grid (exact); the parent's plan "
+    "(pool size, worker, task list, shared shapes / element type / zero fill, argument tuple) against the Lean "
+    "model on a recording in-process pool (exact); parallel outputs compared bit for bit with serial for every "
+    "permutation of <= 4 tasks on the recording pool and under forced completion orders on the real pool "
+    "(worker counts, maxcpu, layouts, dtypes, every option), call sequences.  Trusted: Lean kernel (axioms propext, "
+    "Classical.choice, Quot.sound), the ast translators, determinism of scipy/numpy kernels inside a worker, "
+    "fork start method, multiprocessing.Pool / RawArray semantics.  Partial by nature: the runtime (OS scheduler, "
+    "shared-memory semantics) is outside any model.",
+    "technique": "Lean 4 proofs (simulation invariant over interleavings; interpreter of the regenerated decision "
+    "table; slab coverage by abstract cells; garbage-independence of the serial start) + two source-to-Lean "
+    "translators re-checked by decide + run-time bit comparison under enumerated / forced completion orders",
 }
 
 _WS = None
 
 
+_PARENT = None
+
+
 def translate(ctx):
-    global _WS
+    global _WS, _PARENT
     from translate import c09_footprint
 
-    _WS = c09_footprint.generate(ctx.repo, ctx.lean)
-    return ["ParFootprint.lean"]
+    _WS, _PARENT = c09_footprint.generate(ctx.repo, ctx.lean)
+    return ["ParFootprint.lean", "ParFootprintParent.lean"]
 
 
 # ---------------------------------------------------------------------------------------
 # forcing completion orders from the harness (no source hook)
 
 _DELAYS = None  # dict j -> seconds, set before the pool forks
-_ORDER = mp.Array("i", 8192, lock=False)
-_POS = mp.Value("i", 0)
+# completion record, lock free (a worker killed by a mutated parent must not leave a lock behind): every task
+# stamps its own slot with the system-wide monotonic clock when it returns and counts its executions
+_STAMP = mp.RawArray("d", 8192)
+_RUNS = mp.RawArray("i", 8192)
+_PIDS = mp.RawArray("i", 8192)
 
 
 def _wrap(mod, name):
@@ -94,10 +169,10 @@ def _wrap(mod, name):
         if _DELAYS:
             time.sleep(_DELAYS.get(j, 0.0))
         r = orig(args)
-        with _POS.get_lock():
-            if _POS.value < len(_ORDER):
-                _ORDER[_POS.value] = j
-                _POS.value += 1
+        if isinstance(j, (int, np.integer)) and 0 <= j < len(_STAMP):
+            _RUNS[j] += 1
+            _PIDS[j] = os.getpid()
+            _STAMP[j] = time.monotonic()
         return r
 
     wrapper.__module__ = orig.__module__
@@ -118,11 +193,14 @@ def _install():
         _wrap(fdepsd, "_dofde")
 
 
-def _set_delays(LF, pattern, seed):
+def _set_delays(LF, pattern, seed, perm=None, gap=0.02):
     global _DELAYS
     rng = np.random.default_rng([seed, LF])
     if pattern == "none":
         _DELAYS = {}
+    elif pattern == "perm":
+        # `perm` is the wanted completion order: the task that shall finish k-th sleeps k gaps
+        _DELAYS = {j: gap * k for k, j in enumerate(perm)}
     elif pattern == "reverse":
         _DELAYS = {j: 0.004 * (LF - 1 - j) for j in range(LF)}
     elif pattern == "first-last":
@@ -130,11 +208,152 @@ def _set_delays(LF, pattern, seed):
     else:
         d = rng.permutation(LF)
         _DELAYS = {j: 0.003 * int(d[j]) for j in range(LF)}
-    _POS.value = 0
+    _reset_order()
+
+
+def _reset_order():
+    np.frombuffer(_STAMP)[:] = 0.0
+    np.frombuffer(_RUNS, dtype=np.intc)[:] = 0
 
 
 def _observed_order():
-    return [int(_ORDER[i]) for i in range(_POS.value)]
+    """task indices in the order in which they returned (a task executed k times appears k times)"""
+    st = np.frombuffer(_STAMP)
+    runs = np.frombuffer(_RUNS, dtype=np.intc)
+    js = np.nonzero(runs)[0]
+    js = js[np.argsort(st[js], kind="stable")]
+    out = []
+    for j in js:
+        out += [int(j)] * int(runs[j])
+    return out
+
+
+class _Hang(Exception):
+    pass
+
+
+@contextlib.contextmanager
+def _deadline(seconds):
+    """a call into the (possibly changed) parallel path must come back"""
+    import signal
+
+    def handler(signum, frame):
+        raise _Hang("no return within %d s" % seconds)
+
+    old = signal.signal(signal.SIGALRM, handler)
+    signal.setitimer(signal.ITIMER_REAL, seconds)
+    try:
+        yield
+    finally:
+        signal.setitimer(signal.ITIMER_REAL, 0)
+        signal.signal(signal.SIGALRM, old)
+
+
+# ---------------------------------------------------------------------------------------
+# substituting the cpu count, the platform and the pool class seen by srs.py / fdepsd.py (no source hook:
+# the modules' own names `mp` and `os` are replaced by delegating proxies for the duration of a call)
+
+
+class _Proxy(object):
+    def __init__(self, base, **over):
+        object.__setattr__(self, "_b", base)
+        object.__setattr__(self, "_o", over)
+
+    def __getattr__(self, n):
+        o = object.__getattribute__(self, "_o")
+        if n in o:
+            return o[n]
+        return getattr(object.__getattribute__(self, "_b"), n)
+
+
+@contextlib.contextmanager
+def _patched(cpu=None, win=None, pool=None):
+    from pyyeti import fdepsd, srs
+
+    saved = (srs.mp, srs.os, fdepsd.mp)
+    over = {}
+    if cpu is not None:
+        over["cpu_count"] = lambda: cpu
+    if pool is not None:
+        over["Pool"] = pool
+    mpx = _Proxy(saved[0], **over)
+    srs.mp = mpx
+    fdepsd.mp = mpx
+    if win is not None:
+        srs.os = _Proxy(saved[1], sys=_Proxy(saved[1].sys, platform="win32" if win else "linux"))
+    try:
+        yield
+    finally:
+        srs.mp, srs.os, fdepsd.mp = saved
+
+
+_FAKE = {"order": None, "plans": []}
+_GLOBALS = ("WN_", "SIG_", "ICVALS_", "SRSmax_", "HIST_", "ASV_", "BinAmps_", "Count_")
+
+
+class _FakePool(object):
+    """A recording, in-process stand-in for multiprocessing.Pool: runs the initialiser and the tasks in
+    this process, the tasks in the order prescribed by _FAKE["order"] (a permutation of the task
+    positions), and records what the parent handed over."""
+
+    def __init__(self, processes=None, initializer=None, initargs=(), *a, **k):
+        ia = []
+        for x in initargs:
+            if isinstance(x, tuple) and len(x) == 2 and x[0] is None:
+                ia.append(None)
+            elif isinstance(x, tuple) and len(x) == 2:
+                raw, shape = x
+                view = np.frombuffer(raw)
+                ia.append({"len": len(raw), "ctype": getattr(getattr(raw, "_type_", None), "__name__", "?"),
+                           "shape": tuple(int(v) for v in np.atleast_1d(shape)), "allzero": not view.any()})
+            else:
+                ia.append({"other": repr(type(x))})
+        self.rec = {"processes": processes, "initializer": getattr(initializer, "__name__", None), "initargs": ia,
+                    "calls": [], "extra": [repr(a), repr(sorted(k))] if (a or k) else []}
+        self._init, self._initargs, self._saved = initializer, initargs, None
+        _FAKE["plans"].append(self.rec)
+
+    def __enter__(self):
+        return self
+
+    def __exit__(self, *exc):
+        self._restore()
+        return False
+
+    def close(self):
+        pass
+
+    join = terminate = close
+
+    def _restore(self):
+        if self._saved is not None:
+            mod, vals = self._saved
+            for n, v in vals.items():
+                setattr(mod, n, v)
+            self._saved = None
+
+    def _run(self, method, func, iterable, chunksize=None):
+        tasks = list(iterable)
+        self.rec["calls"].append({"method": method, "func": getattr(func, "__name__", repr(func)),
+                                  "ids": [t[0] for t in tasks], "args": [t[1] for t in tasks], "chunksize": chunksize})
+        mod = sys.modules.get(getattr(func, "__module__", None))
+        if mod is not None and self._saved is None:
+            self._saved = (mod, {n: getattr(mod, n) for n in _GLOBALS if hasattr(mod, n)})
+        if self._init is not None:
+            self._init(*self._initargs)
+        order = [i for i in (_FAKE["order"] or []) if i < len(tasks)]
+        order += [i for i in range(len(tasks)) if i not in order]
+        for i in order:
+            yield func(tasks[i])
+
+    def imap_unordered(self, func, iterable, chunksize=1):
+        return self._run("imap_unordered", func, iterable, chunksize)
+
+    def imap(self, func, iterable, chunksize=1):
+        return self._run("imap", func, iterable, chunksize)
+
+    def map(self, func, iterable, chunksize=None):
+        return list(self._run("map", func, iterable, chunksize))
 
 
 # ---------------------------------------------------------------------------------------
@@ -208,22 +427,29 @@ def _signal(rng, N, H, kind):
     return s
 
 
+_STYPES = ["absacce", "relacce", "relvelo", "reldisp", "pvelo", "pacce"]
+_ICS = ["zero", "shift", "mshift", "steady"]
+_TIMES = ["primary", "total", "residual"]
+_PEAKS = ["abs", "pos", "neg", "poss", "negs", "rms", "callable-meansq", "callable-lambda"]
+_LAYOUTS = ["C", "C", "F", "strided", "colstrided", "reversed"]
+_ROLLS = ["none", "none", "none", "fft", "lanczos", "prefilter", "linear"]
+
+
 def _srs_cases(ctx):
     rng = ctx.rng
-    stypes = ["absacce", "relacce", "relvelo", "reldisp", "pvelo", "pacce"]
-    ics = ["zero", "shift", "mshift", "steady"]
-    times = ["primary", "total", "residual"]
-    peaks = ["abs", "pos", "neg", "poss", "negs", "rms", "rms", "callable-meansq"]
+    peaks = ["abs", "pos", "neg", "poss", "negs", "rms", "rms", "callable-meansq", "callable-meansq", "callable-lambda"]
     n = ctx.pick(220, 1500)
     cases = []
-    grid = list(itertools.product(stypes, ics, [False, True]))
+    grid = list(itertools.product(_STYPES, _ICS, [False, True]))
     rng.shuffle(grid)
     for i in range(n):
         stype, ic, getresp = grid[i % len(grid)]
+        LF = rng.randint(2, 14)
         cases.append(
             dict(
-                stype=stype, ic=ic, getresp=getresp, time=rng.choice(times), peak=rng.choice(peaks),
-                maxcpu=rng.choice([1, 2, 3, 5, 16]), LF=rng.randint(2, 14), N=rng.randint(20, 300),
+                stype=stype, ic=ic, getresp=getresp, time=rng.choice(_TIMES), peak=rng.choice(peaks),
+                # worker counts 1 .. #tasks + 1, and maxcpu None / large (-> 4/5 of the cpu count)
+                maxcpu=rng.choice([1, 2, 3, 5, 16, None, 64, rng.randint(1, LF + 1), LF + 1]), LF=LF, N=rng.randint(20, 300),
                 H=rng.choice([1, 1, 2, 3]), oneD=rng.random() < 0.3, kind=rng.choice(["noise", "sine", "walk"]),
                 pattern=rng.choice(["none", "reverse", "random", "random", "first-last"]),
                 eqsine=rng.random() < 0.2, zero_freq=rng.random() < 0.15, dup_freq=rng.random() < 0.3,
@@ -231,14 +457,60 @@ def _srs_cases(ctx):
                 # dtypes of the caller's arrays: the shared arrays of the parallel path are always double
                 fdtype=rng.choice(["float64", "float64", "float32", "int64"]),
                 sdtype=rng.choice(["float64", "float64", "float32", "int64"]),
+                layout=rng.choice(_LAYOUTS), flayout=rng.choice(["C", "C", "strided"]),
+                rolloff=rng.choice(_ROLLS), ppc=rng.choice([4, 10, 12]),
             )
         )
     return cases
 
 
+def _perm_cases(ctx, pool, maxLF):
+    """every completion order of <= maxLF tasks; the options are cycled so that every ic x getresp (srs) and every
+    resp (fdepsd) meets every order of 2 and 3 tasks and a rotating share of the orders of 4 (5) tasks"""
+    rng = ctx.rng
+    out = []
+    k = 0
+    srs_grid = list(itertools.product(_ICS, [False, True]))
+    for LF in range(1, maxLF + 1):
+        perms = list(itertools.permutations(range(LF)))
+        reps = len(srs_grid) if len(perms) <= 6 else 1
+        for pi, perm in enumerate(perms):
+            for r in range(reps):
+                ic, getresp = srs_grid[(pi + r) % len(srs_grid)]
+                k += 1
+                out.append(("srs", dict(
+                    stype=_STYPES[k % 6], ic=ic, getresp=getresp, time=_TIMES[k % 3], peak=_PEAKS[k % 7],
+                    maxcpu=LF + 1, LF=LF, N=rng.randint(20, 120), H=1 + k % 3, oneD=(k % 5 == 0), kind="noise",
+                    pattern="perm", order=list(perm), pool=pool, eqsine=(k % 4 == 0), zero_freq=(k % 7 == 0), dup_freq=(k % 3 == 0),
+                    seed=rng.randint(0, 10 ** 6), fdtype="float64", sdtype="float64", layout=_LAYOUTS[k % 6], flayout="C",
+                    rolloff="none", ppc=10, gap=0.02)))
+            if pool == "fake" or LF <= 3:
+                out.append(("fdepsd", dict(
+                    resp=["absacce", "pvelo"][pi % 2], LF=LF, N=rng.randint(400, 900), nbins=[8, 20, 300][pi % 3], maxcpu=LF + 1,
+                    pattern="perm", order=list(perm), pool=pool, dup_freq=(pi % 3 == 0), seed=rng.randint(0, 10 ** 6),
+                    fdtype="float64", sdtype="float64", gap=0.02)))
+    return out
+
+
 def _meansq(resp):
-    """a user peak function (documented: any callable reducing axis 0)"""
+    """a user peak function (documented: any callable reducing axis 0); module level: pickle accepts it, the
+    parallel path must really be used"""
     return np.mean(resp * resp, axis=0)
+
+
+# the same function as something pickle refuses (attribute lookup of '<lambda>' fails): since the repair F53
+# (6fe4fad) srs.srs runs such a `peak` serially whatever `parallel` says; before it the parallel path raised
+_LAMBDA_PEAK = lambda resp: np.mean(resp * resp, axis=0)  # noqa: E731
+
+
+def _peak_of(c):
+    return {"callable-meansq": _meansq, "callable-lambda": _LAMBDA_PEAK}.get(c["peak"], c["peak"])
+
+
+def _peak_kind(routine, c):
+    if routine != "srs":
+        return "name"
+    return {"callable-meansq": "picklable", "callable-lambda": "unpicklable"}.get(c["peak"], "name")
 
 
 def _cast(a, dtype, scale):
@@ -250,9 +522,24 @@ def _cast(a, dtype, scale):
     return np.asarray(a).astype(dtype)
 
 
-def _run_srs(c, parallel):
-    from pyyeti import srs
+def _layout(a, lay):
+    """the same values in another memory layout"""
+    if lay == "F" and a.ndim == 2:
+        return np.asfortranarray(a)
+    if lay == "strided":
+        big = np.repeat(a, 2, axis=0)
+        big[1::2] = 7
+        return big[::2]
+    if lay == "colstrided" and a.ndim == 2:
+        big = np.repeat(a, 2, axis=1)
+        big[:, 1::2] = 7
+        return big[:, ::2]
+    if lay == "reversed":
+        return np.ascontiguousarray(a[::-1])[::-1]
+    return a
 
+
+def _srs_inputs(c):
     r = np.random.default_rng(c["seed"])
     sig = _signal(r, c["N"], c["H"], c["kind"])
     if c["oneD"]:
@@ -264,27 +551,45 @@ def _run_srs(c, parallel):
         k = 1 + int(r.integers(0, c["LF"] - 1))
         freq[k] = freq[k - 1]  # repeated frequency (e.g. two stacked bands sharing an end point)
     freq, sig = _cast(freq, c.get("fdtype"), 1.0), _cast(sig, c.get("sdtype"), 64.0)
-    if parallel == "yes":
-        _set_delays(c["LF"], c["pattern"], c["seed"])
-    peak = _meansq if c["peak"] == "callable-meansq" else c["peak"]
+    return _layout(sig, c.get("layout", "C")), _layout(freq, c.get("flayout", "C"))
+
+
+def _run_srs(c, parallel):
+    from pyyeti import srs
+
+    sig, freq = _srs_inputs(c)
+    if parallel != "no":
+        if c.get("pool") == "fake":
+            _set_delays(c["LF"], "none", c["seed"])
+        else:
+            _set_delays(c["LF"], c["pattern"], c["seed"], c.get("order"), c.get("gap", 0.02))
+    peak = _peak_of(c)
     with warnings.catch_warnings():
         warnings.simplefilter("ignore")
         out = srs.srs(sig, 200.0, freq, 20.0, ic=c["ic"], stype=c["stype"], peak=peak, eqsine=c["eqsine"],
-                      time=c["time"], getresp=c["getresp"], parallel=parallel, maxcpu=c["maxcpu"], rolloff="none")
+                      time=c["time"], getresp=c["getresp"], parallel=parallel, maxcpu=c["maxcpu"],
+                      rolloff=c.get("rolloff", "none"), ppc=c.get("ppc", 10))
     return out
 
 
 def _fde_cases(ctx):
     rng = ctx.rng
     n = ctx.pick(24, 150)
-    return [
-        dict(resp=rng.choice(["absacce", "pvelo"]), LF=rng.randint(2, 9), N=rng.randint(400, 1500),
-             nbins=rng.choice([8, 20, 300]), maxcpu=rng.choice([1, 2, 3, 5, 16]),
-             pattern=rng.choice(["none", "reverse", "random", "first-last"]), dup_freq=rng.random() < 0.4,
-             seed=rng.randint(0, 10 ** 6), fdtype=rng.choice(["float64", "float64", "float32", "int64"]),
-             sdtype=rng.choice(["float64", "float64", "float32", "int64"]))
-        for _ in range(n)
-    ] + [
+    out = []
+    for _ in range(n):
+        LF = rng.randint(2, 9)
+        out.append(dict(
+            resp=rng.choice(["absacce", "pvelo"]), LF=LF, N=rng.randint(400, 1500), nbins=rng.choice([8, 20, 300]),
+            maxcpu=rng.choice([1, 2, 3, 5, 16, None, 64, LF + 1]),
+            pattern=rng.choice(["none", "reverse", "random", "first-last"]), dup_freq=rng.random() < 0.4,
+            seed=rng.randint(0, 10 ** 6), fdtype=rng.choice(["float64", "float64", "float32", "int64"]),
+            sdtype=rng.choice(["float64", "float64", "float32", "int64"]),
+            # every option that shapes what reaches the pool
+            rolloff=rng.choice(["none", "none", "lanczos", "fft", "prefilter", "linear"]), ppc=rng.choice([4, 8, 12]),
+            hpfilter=rng.choice([None, None, 5.0, 2.0]), detrend=rng.random() < 0.5,
+            winends=rng.choice(["none", "none", "auto"]), T0=rng.choice([60.0, 7.5]), layout=rng.choice(["C", "C", "strided", "reversed"]),
+        ))
+    return out + [
         # exact boundary values: an event repeated later at exactly 1/2 (1/4) level after every oscillator has rung
         # down, nothing that breaks the exact scaling (no detrend / window / filter / resampling): the largest cycle of
         # the repeat lies exactly ON an amplitude level when nbins is even (a multiple of 4)
@@ -300,13 +605,16 @@ def _run_fde(c, parallel):
     from pyyeti import fdepsd
 
     r = np.random.default_rng(c["seed"])
+    if parallel != "no":
+        if c.get("pool") == "fake":
+            _set_delays(c["LF"], "none", c["seed"])
+        else:
+            _set_delays(c["LF"], c["pattern"], c["seed"], c.get("order"), c.get("gap", 0.02))
     if c.get("sigkind") == "repeat-scaled":
         burst = r.standard_normal(300)
         gap = np.zeros(5000)
         sig = np.concatenate((burst, gap, c["level"] * burst, gap))
         freq = np.sort(r.uniform(20.0, 33.0, c["LF"]))  # sr / freq > ppc: no resampling
-        if parallel == "yes":
-            _set_delays(c["LF"], c["pattern"], c["seed"])
         with warnings.catch_warnings():
             warnings.simplefilter("ignore")
             return fdepsd.fdepsd(sig, 400.0, freq, 15.0, resp=c["resp"], nbins=c["nbins"], parallel=parallel,
@@ -318,45 +626,204 @@ def _run_fde(c, parallel):
         k = 1 + int(r.integers(0, c["LF"] - 1))
         freq[k] = freq[k - 1]
     freq, sig = _cast(freq, c.get("fdtype"), 1.0), _cast(sig, c.get("sdtype"), 64.0)
-    if parallel == "yes":
-        _set_delays(c["LF"], c["pattern"], c["seed"])
+    sig = _layout(sig, c.get("layout", "C"))
+    kw = {}
+    if "hpfilter" in c:
+        kw = dict(hpfilter=c["hpfilter"], detrend=c["detrend"], ppc=c["ppc"], T0=c["T0"])
+    we = c.get("winends", "none")
     with warnings.catch_warnings():
         warnings.simplefilter("ignore")
         return fdepsd.fdepsd(sig, 400.0, freq, 15.0, resp=c["resp"], nbins=c["nbins"], parallel=parallel,
-                             maxcpu=c["maxcpu"], verbose=False, rolloff="none", winends=None)
+                             maxcpu=c["maxcpu"], verbose=False, rolloff=c.get("rolloff", "none"),
+                             winends=None if we == "none" else we, **kw)
 
 
-def _compare_all(ctx, report, hints=()):
+def _execute(routine, c, parallel):
+    """one call of the routine: parallel='no', or the parallel path on the real pool / on the recording pool
+    (c['pool'] == 'fake': tasks executed in-process in the order c['order']); -> (outputs, plans)"""
+    run = _run_srs if routine == "srs" else _run_fde
+    if parallel == "no":
+        return run(c, parallel), None
+    if c.get("pool") != "fake":
+        with _deadline(180):
+            return run(c, parallel), None
+    _FAKE["plans"] = []
+    _FAKE["order"] = list(c.get("order") or [])
+    _reset_order()
+    with _patched(cpu=c.get("cpu", 16), win=False, pool=_FakePool):
+        out = run(c, parallel)
+    return out, _FAKE["plans"]
+
+
+def _doic(c):
+    return c["ic"] == "steady" and c["stype"] in ("absacce", "reldisp", "pvelo", "pacce")
+
+
+def _plan_query(routine, c, ser, plans, par):
+    """-> (driver lines, checker(replies) -> list of differences) for one recording-pool run"""
+    mode = c.get("parallel", "yes")
+    LF = c["LF"]
+    if routine == "srs":
+        sh = ser[0] if isinstance(ser, tuple) else ser
+        H = 1 if sh.ndim == 1 else sh.shape[1]
+        atoms = ["doic" if _doic(c) else "not (doic)"]
+        env = {"H": H}
+        if c["getresp"]:
+            atoms.append("getresp")
+            T = ser[1]["hist"].shape[0]
+            if c["time"] == "residual":
+                atoms.append("ptr == 2")
+                env["N - M"] = T
+            else:
+                atoms.append("not (ptr == 2)")
+                env["N"] = T
+        rname = "srs.srs"
+        getresp = c["getresp"]
+    else:
+        atoms, env, rname, getresp = [], {"nbins": c["nbins"]}, "fdepsd.fdepsd", False
+    q_plan = "plan %s | %s | %d | %s" % (rname, ";".join(atoms), LF, ";".join("%s=%d" % kv for kv in env.items()))
+    mc = c["maxcpu"]
+    size = c["N"] * (1 if c["oneD"] else c["H"]) if routine == "srs" else int(np.size(par.sig))
+    q_dec = "dec %s %d %d %s %d %d 0 %s %s" % (mode, LF, size, "none" if mc is None else mc, 1 if getresp else 0, c.get("cpu", 16),
+                                               routine, _peak_kind(routine, c))
+
+    def check(rep_plan, rep_dec):
+        diffs = []
+        if rep_dec.startswith("no"):
+            return ["the model decides serial (%s) but a pool was created" % rep_dec] if plans else []
+        if not plans:
+            return ["the model decides %s but no pool was created" % rep_dec]
+        if len(plans) != 1 or len(plans[0]["calls"]) != 1:
+            return ["%d pools / %s calls recorded" % (len(plans), [len(p["calls"]) for p in plans])]
+        pl, call = plans[0], plans[0]["calls"][0]
+        f = rep_plan.split("|")
+        if len(f) != 8:
+            return ["model has no plan: %s" % rep_plan]
+        worker, init, procs, method, tasks, shared, params, pargs = f
+        if worker != rname.split(".")[0] + "." + call["func"]:
+            diffs.append("worker %s vs model %s" % (call["func"], worker))
+        if init != pl["initializer"]:
+            diffs.append("initializer %s vs model %s" % (pl["initializer"], init))
+        if method != call["method"]:
+            diffs.append("pool method %s vs model %s" % (call["method"], method))
+        if ",".join(str(i) for i in call["ids"]) != tasks:
+            diffs.append("task list %s vs model %s" % (call["ids"], tasks))
+        if rep_dec != "yes %s" % pl["processes"]:
+            diffs.append("pool size %r vs decision model %r" % (pl["processes"], rep_dec))
+        decl = shared.split(",")
+        if len(decl) != len(pl["initargs"]):
+            diffs.append("%d initargs vs %d shared declarations" % (len(pl["initargs"]), len(decl)))
+        else:
+            for d, ia in zip(decl, pl["initargs"]):
+                glob, var, kind, shape = d.split(":")
+                if shape == "none":
+                    if ia is not None:
+                        diffs.append("%s allocated but the model says (None, None)" % glob)
+                    continue
+                if ia is None or "other" in ia:
+                    diffs.append("%s: %r vs model %s" % (glob, ia, d))
+                    continue
+                if ia["ctype"] != "c_double" or ia["len"] != int(np.prod(ia["shape"])):
+                    diffs.append("%s: RawArray of %d %s for shape %s" % (glob, ia["len"], ia["ctype"], ia["shape"]))
+                if kind == "zeros":
+                    if "x".join(str(v) for v in ia["shape"]) != shape:
+                        diffs.append("%s: shape %s vs model %s" % (glob, ia["shape"], shape))
+                    if glob != "BinAmps_" and not ia["allzero"]:
+                        diffs.append("%s: not zero filled" % glob)
+                elif glob == "WN_" and ia["shape"] != (LF,):
+                    diffs.append("WN_: shape %s for %d frequencies" % (ia["shape"], LF))
+        nargs = {len(a) for a in call["args"]}
+        if nargs != {len(params.split(","))}:
+            diffs.append("argument tuples of length %s for parameters (%s)" % (sorted(nargs), params))
+        if len({id(a) for a in call["args"]}) > 1 and len({repr(a) for a in call["args"]}) > 1:
+            diffs.append("tasks receive different argument tuples")
+        # copy-out: the returned arrays are views of the shared arrays handed to the pool
+        return diffs
+
+    return [q_plan, q_dec], check
+
+
+def _compare_all(ctx, report, hints=(), extra=()):
     """The bit comparison parallel vs serial. `report(kind, case, detail)` is called on a difference."""
     _install()
     cases = [("srs", c) for c in _srs_cases(ctx)] + [("fdepsd", c) for c in _fde_cases(ctx)]
-    cases = [(h["routine"], h["case"]) for h in hints] + cases
+    cases = [(h["routine"], h["case"]) for h in hints] + list(extra) + cases
+    plan_checks = []
     for routine, c in cases:
-        run = _run_srs if routine == "srs" else _run_fde
-        try:
-            ser = run(c, "no")
-            par = run(c, "yes")
-        except Exception as e:  # a crash of the parallel path is a finding, of the serial one too
-            report(routine, c, "exception %s: %s" % (type(e).__name__, e))
-            continue
-        order = _observed_order()
-        d = _first_diff(_bytes_of(par), _bytes_of(ser), routine)
-        nontriv = c["LF"] >= 2 and c["maxcpu"] >= 2 and order != sorted(order)
-        ctx.case((routine, tuple(sorted((k, str(v)) for k, v in c.items())), tuple(order)), nontrivial=nontriv,
-                 branch="%s:%s" % (routine, c.get("ic", c.get("resp"))))
+        fake = c.get("pool") == "fake"
+        # what was generated is counted before the call: a case that raises is a disagreement, not a missed branch
+        ctx.count("%s:%s" % (routine, c.get("ic", c.get("resp"))))
         ctx.count("pattern:" + c["pattern"])
+        ctx.count("pool:" + ("recording" if fake else "real"))
         if c.get("dup_freq") and c["LF"] >= 3:
             ctx.count("dup-freq:" + routine)
         ctx.count("maxcpu:%s" % c["maxcpu"])
         if routine == "srs":
             ctx.count("stype:" + c["stype"])
             ctx.count("getresp:%s" % c["getresp"])
-        if len(order) != c["LF"]:
+            ctx.count("peak:" + c["peak"])
+            ctx.count("layout:" + c.get("layout", "C"))
+            ctx.count("rolloff:" + c.get("rolloff", "none"))
+            ctx.count("time:" + c["time"])
+        else:
+            ctx.count("fde-rolloff:" + c.get("rolloff", "none"))
+            ctx.count("fde-hpfilter:%s" % c.get("hpfilter", "default"))
+        try:
+            ser, _ = _execute(routine, c, "no")
+            par, plans = _execute(routine, c, c.get("parallel", "yes"))
+        except Exception as e:  # a crash of the parallel path is a finding, of the serial one too
+            ctx.case((routine, tuple(sorted((k, str(v)) for k, v in c.items())), "raised"), nontrivial=False)
+            report(routine, c, "exception %s: %s" % (type(e).__name__, e))
+            continue
+        order = _observed_order()
+        d = _first_diff(_bytes_of(par), _bytes_of(ser), routine)
+        if fake:
+            nontriv = c["LF"] >= 2 and order != sorted(order)
+        else:
+            nontriv = c["LF"] >= 2 and (c["maxcpu"] is None or c["maxcpu"] >= 2) and order != sorted(order)
+        ctx.case((routine, tuple(sorted((k, str(v)) for k, v in c.items())), tuple(order)), nontrivial=nontriv)
+        if c["pattern"] == "perm":
+            want = list(c["order"])
+            hit = order == want
+            ctx.count("perm-%s:%s" % ("recording" if fake else "real", "observed" if hit else "missed"))
+            if routine == "srs" and c["peak"] == "callable-lambda":
+                pass  # serial fallback: no completion order to observe (the same order is met with other peaks)
+            elif hit:
+                _PERMS_SEEN.setdefault(("recording" if fake else "real", routine, c["LF"]), set()).add(tuple(order))
+        if not fake:
+            # "maxcpu: maximum number of CPUs to use": the tasks must not have run in more processes than that
+            pids = {int(_PIDS[j]) for j in set(order)}
+            if c["maxcpu"] and len(pids) > c["maxcpu"]:
+                report(routine, c, "tasks ran in %d different worker processes with maxcpu=%d" % (len(pids), c["maxcpu"]))
+        # an unpicklable `peak` is run by the serial loop (no task reaches a worker); a picklable callable is not
+        fallback = routine == "srs" and c["peak"] == "callable-lambda"
+        if fallback:
+            ctx.count("unpicklable-peak:" + ("recording" if fake else "real"))
+            if order:
+                report(routine, c, "tasks %s ran in the pool although `peak` cannot be pickled" % order)
+        elif routine == "srs" and c["peak"] == "callable-meansq" and len(order) == c["LF"]:
+            ctx.count("picklable-callable-peak-in-pool:" + ("recording" if fake else "real"))
+        went_serial = fallback or (fake and c.get("parallel") == "auto" and not plans)
+        if len(order) != c["LF"] and not went_serial:
             report(routine, c, "the pool ran %d tasks for %d frequencies (observed %s)" % (len(order), c["LF"], order))
         if d:
             report(routine, c, d)
+        if fake and c.get("parallel") == "auto":
+            ctx.count("auto:parallel" if plans else "auto:serial")
+        if fake and plans is not None:
+            qs, chk = _plan_query(routine, c, ser, plans, par)
+            plan_checks.append((qs, chk, routine, c))
         if len(ctx.samples) < 4 and nontriv:
             ctx.sample({"routine": routine, "case": c, "observed_completion_order": order})
+    return plan_checks
+
+
+_PERMS_SEEN = {}
+# F53 (repaired in /repo by `fix:` commit 6fe4fad): a `peak` function that cannot be pickled made the parallel path
+# raise where parallel='no' returns the spectrum.  The probe stays as a regression guard: it passes on the repaired
+# tree and reports this family again if the PicklingError ever returns (tools/reverttest.sh 6fe4fad C09)
+FIXED_F53 = "parallel-path-raises:srs:peak-callable-not-picklable"
+REPORT_UNPICKLABLE_PEAK = True
 
 
 # ---------------------------------------------------------------------------------------
@@ -419,6 +886,8 @@ def _validate_footprint(ctx):
     LF, N, H, nb = 4, 40, 2, 5
     rng = np.random.default_rng(ctx.seed)
     queries, expect, meta = [], [], []
+    writers = {}  # (worker, array, cell) -> tasks that wrote it
+    shapes_of = {}
     for w in _WS:
         mod = srs if w["module"] == "srs" else fdepsd
         fn = getattr(mod, w["name"])
@@ -452,6 +921,10 @@ def _validate_footprint(ctx):
                 tgt = written if kind == "w" else read
                 full = set(range(int(np.prod(shapes[name]))))
                 tgt.setdefault(name, set()).update(full if ids is None else ids)
+            for name, ids in written.items():
+                shapes_of[(w["name"], name)] = shapes[name]
+                for flat in ids:
+                    writers.setdefault((w["name"], name, flat), []).append(j)
             # every cell of every shared array: does Lean say a write/read pattern covers it?
             for name in w["shared"]:
                 shp = shapes[name]
@@ -486,6 +959,153 @@ def _validate_footprint(ctx):
             ctx.disagree("footprint-reads", {"worker": m[0], "array": m[2], "j": m[3], "cell": list(m[4])},
                          "read", "not covered")
     ctx.count("footprint-cells-checked", len(expect))
+    # partition: every cell of every written array is written by exactly one task, the one Lean's `ownerOf` names,
+    # and Lean's `part` (exactly one covering task per cell, = the owner) holds on the concrete shape
+    q2, m2 = [], []
+    for (wname, arr), shp in sorted(shapes_of.items()):
+        full = "%s.%s" % ("srs" if wname.startswith("_dosrs") else "fdepsd", wname)
+        q2.append("part %s %d | %s %s" % (full, LF, arr, " ".join(str(v) for v in shp)))
+        m2.append(("part", wname, arr, None))
+        for flat in range(int(np.prod(shp))):
+            idx = [int(v) for v in np.unravel_index(flat, shp)]
+            q2.append("own %s | %s %s" % (full, arr, " ".join(map(str, idx))))
+            m2.append(("own", wname, arr, (flat, idx)))
+    rep2 = drv.ask(q2)
+    for r, (kind, wname, arr, cell) in zip(rep2, m2):
+        ctx.evaluations += 1
+        if kind == "part":
+            if r != "ok":
+                ctx.disagree("partition", {"worker": wname, "array": arr, "shape": list(shapes_of[(wname, arr)])},
+                             "the run on recording arrays", "model: %s" % r)
+            continue
+        flat, idx = cell
+        ws_ = sorted(writers.get((wname, arr, flat), []))
+        if [str(j) for j in ws_] != [r]:
+            ctx.disagree("partition", {"worker": wname, "array": arr, "cell": idx}, "written by tasks %s" % ws_, "owner %s" % r)
+    ctx.count("partition-cells-checked", len(q2))
+
+
+# ---------------------------------------------------------------------------------------
+# the decision: real `_process_parallel` against the Lean interpreter of the regenerated table
+
+
+def _decision_stream(ctx):
+    from pyyeti import srs
+
+    rng = ctx.rng
+    grid = []
+    modes = ["auto", "yes", "no", "maybe", "<empty>", "Yes"]
+    LFs = [0, 1, 2, 7]
+    sizes = [0, 49999, 50000, 50001, 10 ** 6]
+    maxcpus = [None, 0, 1, 2, 4, 5, 13, 14, 15, 16, 64]
+    cpus = [1, 2, 4, 5, 6, 14, 15, 16, 17, 64]
+    full = list(itertools.product(modes, LFs, sizes, maxcpus, [False, True], cpus, [False, True]))
+    if ctx.thorough:
+        grid = full
+    else:
+        grid = rng.sample(full, 2500)
+        # every threshold from both sides
+        grid += [("auto", lf, sz, 14, gr, cpu, win) for lf in (1, 2) for sz in (50000, 50001) for gr in (False, True)
+                 for cpu in (1, 2) for win in (False, True)]
+        grid += [("yes", 3, 10, mc, False, cpu, False) for mc in maxcpus for cpu in cpus]
+    qs, impl = [], []
+    for mode, lf, sz, mc, gr, cpu, win in grid:
+        pm = "" if mode == "<empty>" else mode
+        try:
+            with _patched(cpu=cpu, win=win):
+                r = srs._process_parallel(pm, lf, sz, mc, gr)
+            r = "%s %s" % (r[0], r[1])
+        except ValueError:
+            r = "raise"
+        impl.append(r)
+        qs.append("dec %s %d %d %s %d %d %d" % (mode, lf, sz, "none" if mc is None else mc, int(gr), cpu, int(win)))
+    rep = ctx.driver("C09").ask(qs)
+    for q, a, b, g in zip(qs, impl, rep, grid):
+        took = a.split()[0] if a != "raise" else "raise"
+        ctx.case(("dec", q), nontrivial=True, branch="decision:%s->%s" % (g[0] if g[0] in ("auto", "yes", "no") else "invalid", took))
+        if a != b:
+            ctx.disagree("decision", {"args": q}, a, b)
+
+
+# ---------------------------------------------------------------------------------------
+# call sequences
+
+
+def _sequence_stream(ctx, report):
+    """serial then parallel, parallel twice, histories on then off; the arrays returned by an earlier call must
+    not change when a later call runs (they are views of shared memory); stale module globals in the parent must
+    not leak into a later pool"""
+    from pyyeti import fdepsd, srs
+
+    _install()
+    rng = ctx.rng
+    for k in range(ctx.pick(3, 12)):
+        base = dict(stype=rng.choice(_STYPES), ic=rng.choice(_ICS), time=rng.choice(_TIMES), peak=rng.choice(_PEAKS),
+                    maxcpu=rng.choice([2, 3]), LF=rng.randint(2, 6), N=rng.randint(30, 120), H=rng.choice([1, 2]),
+                    oneD=False, kind="noise", pattern=rng.choice(["reverse", "random"]), eqsine=rng.random() < 0.3,
+                    zero_freq=False, dup_freq=False, fdtype="float64", sdtype="float64", layout="C", flayout="C",
+                    rolloff="none", ppc=10)
+        steps = []
+        for i in range(4):
+            c = dict(base, getresp=[True, False, True, False][(i + k) % 4], seed=rng.randint(0, 10 ** 6))
+            if i == 2:
+                c["LF"] = base["LF"] + 1  # another number of tasks than the call before
+            steps.append(c)
+        seq = {"routine": "srs", "sequence": steps, "stale_globals": k % 2 == 1}
+        d = _run_sequence(seq)
+        ctx.case(("seq", repr(seq)), nontrivial=True, branch="sequence:srs")
+        if d:
+            report("srs", seq, d)
+    for k in range(ctx.pick(2, 6)):
+        steps = [dict(resp=rng.choice(["absacce", "pvelo"]), LF=rng.randint(2, 5), N=rng.randint(400, 800), nbins=rng.choice([8, 20]),
+                      maxcpu=2, pattern="reverse", dup_freq=False, seed=rng.randint(0, 10 ** 6), fdtype="float64", sdtype="float64")
+                 for _ in range(3)]
+        seq = {"routine": "fdepsd", "sequence": steps, "stale_globals": k % 2 == 1}
+        d = _run_sequence(seq)
+        ctx.case(("seq", repr(seq)), nontrivial=True, branch="sequence:fdepsd")
+        if d:
+            report("fdepsd", seq, d)
+
+
+def _run_sequence(seq):
+    """-> None or a description of the first difference"""
+    from pyyeti import fdepsd, srs
+
+    routine = seq["routine"]
+    mod = srs if routine == "srs" else fdepsd
+    names = [n for n in _GLOBALS if hasattr(mod, n)]
+    saved = {n: getattr(mod, n) for n in names}
+    try:
+        if seq.get("stale_globals"):
+            # what an earlier in-process use of the workers would leave behind in the parent (inherited by fork)
+            for n in names:
+                setattr(mod, n, np.full((2, 2, 2), 123.0))
+        # reference: every call on its own, serial
+        refs = [_bytes_of(_execute(routine, c, "no")[0]) for c in seq["sequence"]]
+        kept = []
+        for i, c in enumerate(seq["sequence"]):
+            # serial call first (leaves whatever it leaves), then the parallel one, then the parallel one again
+            ser = _execute(routine, c, "no")[0]
+            d = _first_diff(_bytes_of(ser), refs[i], "%s[step %d serial]" % (routine, i))
+            if d:
+                return d
+            for rep_ in range(2):
+                par = _execute(routine, c, "yes")[0]
+                d = _first_diff(_bytes_of(par), refs[i], "%s[step %d parallel #%d]" % (routine, i, rep_))
+                if d:
+                    return d
+                kept.append((i, rep_, par))
+            # results returned earlier are still what they were
+            for (i0, r0, out) in kept:
+                d = _first_diff(_bytes_of(out), refs[i0], "%s[result of step %d (#%d) after step %d]" % (routine, i0, r0, i))
+                if d:
+                    return d
+    except Exception as e:  # noqa: BLE001
+        return "exception %s: %s" % (type(e).__name__, e)
+    finally:
+        for n, v in saved.items():
+            setattr(mod, n, v)
+    return None
 
 
 def correspondence(ctx):
@@ -502,15 +1122,129 @@ def correspondence(ctx):
         ctx.count("footprint-cells-checked", 0)
 
     def rep(routine, c, detail):
-        ctx.disagree("parallel-vs-serial:" + routine, {"routine": routine, "case": c}, detail, "bit-identical to parallel='no'")
+        stream = "parallel-call-sequence:" if "sequence" in c else "parallel-vs-serial:"
+        ctx.disagree(stream + routine, {"routine": routine, "case": c}, detail, "bit-identical to parallel='no'")
 
-    _compare_all(ctx, rep)
+    # (b) decision
+    _decision_stream(ctx)
+    # (c) recording pool: every completion order of <= 4 (5) tasks, plus the 'auto' rule end to end;
+    # (d) real pool: forced orders (every permutation of <= 3 (4) tasks) and the random streams
+    extra = (_perm_cases(ctx, "fake", ctx.pick(4, 5)) + _auto_cases(ctx) + _peak_guard_cases(ctx)
+             + _perm_cases(ctx, "real", ctx.pick(3, 4)))
+    plan_checks = _compare_all(ctx, rep, extra=extra)
+    if plan_checks:
+        qs = [q for item in plan_checks for q in item[0]]
+        replies = ctx.driver("C09").ask(qs)
+        for i, (_, chk, routine, c) in enumerate(plan_checks):
+            diffs = chk(replies[2 * i], replies[2 * i + 1])
+            ctx.evaluations += 1
+            ctx.count("parent-plan:" + routine)
+            for d in diffs[:3]:
+                ctx.disagree("parent-plan:" + routine, {"routine": routine, "case": c}, d, "plan of the Lean model: %s / %s" % (replies[2 * i], replies[2 * i + 1]))
+    # exhaustiveness on the recording pool is exact; on the real pool the forced orders are timing dependent:
+    # what was observed is recorded, a missed order is retried once with a larger gap
+    for LF in range(1, ctx.pick(4, 5) + 1):
+        import math
+
+        for routine in ("srs", "fdepsd"):
+            got = len(_PERMS_SEEN.get(("recording", routine, LF), ()))
+            if got == math.factorial(LF):
+                ctx.count("all-orders-recording:%s:%d" % (routine, LF))
+    real_orders = sum(len(v) for k, v in _PERMS_SEEN.items() if k[0] == "real")
+    ctx.count("real-pool-distinct-forced-orders", real_orders)
+    ctx.exhaustive = all(ctx.hist.get("all-orders-recording:%s:%d" % (r, n)) for r in ("srs", "fdepsd") for n in (1, 2, 3, 4))
+    # (e) call sequences
+    _sequence_stream(ctx, rep)
     ctx.require_branches(["pattern:reverse", "pattern:random", "getresp:True", "getresp:False", "fdepsd:absacce",
-                          "dup-freq:srs", "dup-freq:fdepsd"])
+                          "dup-freq:srs", "dup-freq:fdepsd", "pool:recording", "pool:real",
+                          "decision:auto->yes", "decision:auto->no", "decision:invalid->raise", "decision:yes->yes",
+                          "sequence:srs", "sequence:fdepsd", "layout:F", "layout:strided", "rolloff:fft",
+                          "fde-rolloff:lanczos", "maxcpu:None"] + ["peak:" + p for p in _PEAKS])
+    if not ctx.disagreements and not ctx.broken:
+        # on a run without any disagreement or broken obligation every order of <= 4 tasks must have been executed on the recording
+        # pool and the plan stream must have run (a case that raises is a disagreement and ends up as a violation)
+        ctx.require_branches(["all-orders-recording:srs:4", "all-orders-recording:fdepsd:4", "all-orders-recording:srs:3",
+                              "parent-plan:srs", "parent-plan:fdepsd", "auto:parallel", "auto:serial",
+                              "unpicklable-peak:recording", "unpicklable-peak:real",
+                              "picklable-callable-peak-in-pool:recording", "picklable-callable-peak-in-pool:real"])
+
+
+def _auto_cases(ctx):
+    """parallel='auto' end to end on the recording pool (cheap in-process): blocks just above / below the size
+    threshold, with and without histories, one frequency, a one-cpu machine"""
+    rng = ctx.rng
+    out = []
+    for (N, H, LF, getresp, cpu) in [(25001, 2, 3, False, 16), (25000, 2, 3, False, 16), (25001, 2, 1, False, 16),
+                                     (25001, 2, 3, True, 16), (25001, 2, 3, False, 1), (50001, 1, 2, False, 4)]:
+        out.append(("srs", dict(
+            stype=rng.choice(_STYPES), ic=rng.choice(_ICS), getresp=getresp, time="primary", peak="abs", maxcpu=rng.choice([None, 2, 14]),
+            LF=LF, N=N, H=H, oneD=False, kind="noise", pattern="perm", order=list(range(LF))[::-1], pool="fake", parallel="auto",
+            cpu=cpu, eqsine=False, zero_freq=False, dup_freq=False, seed=rng.randint(0, 10 ** 6), fdtype="float64",
+            sdtype="float64", layout="C", flayout="C", rolloff="none", ppc=4)))
+    return out
+
+
+def _peak_guard_cases(ctx):
+    """the override of srs.srs between the decision and the split (F53): a `peak` function pickle refuses goes to
+    the serial loop under 'yes' and under 'auto' on a big block, a module-level function still goes to the pool;
+    on the recording pool (plan vs the Lean `routineDecision`) and on the real pool"""
+    rng = ctx.rng
+    out = []
+    for pool in ("fake", "real"):
+        for peak in ("callable-lambda", "callable-meansq"):
+            for (mode, N, H) in [("yes", 60, 2), ("yes", 90, 1)] + ([("auto", 25001, 2)] if pool == "fake" else []):
+                for getresp in ((False, True) if mode == "yes" else (False,)):
+                    LF = rng.randint(2, 4)
+                    out.append(("srs", dict(
+                        stype=rng.choice(_STYPES), ic=rng.choice(_ICS), getresp=getresp, time=rng.choice(_TIMES), peak=peak,
+                        maxcpu=rng.choice([2, 3, None]), LF=LF, N=N, H=H, oneD=(H == 1), kind="noise", pattern="perm",
+                        order=list(range(LF))[::-1], pool=pool, parallel=mode, cpu=16, eqsine=rng.random() < 0.5, zero_freq=False,
+                        dup_freq=False, seed=rng.randint(0, 10 ** 6), fdtype="float64", sdtype="float64", layout="C",
+                        flayout="C", rolloff="none", ppc=4, gap=0.02)))
+    return out
 
 
 def _family(routine, c, detail):
+    if c.get("peak") == "callable-lambda" and "ickl" in str(detail):
+        return FIXED_F53
+    if "sequence" in c:
+        return "parallel-call-sequence:%s" % routine
+    if str(detail).startswith("tasks ran in"):
+        return "more-worker-processes-than-maxcpu:%s" % routine
     return "parallel-differs-from-serial:%s" % routine
+
+
+def _confirm(inp):
+    """re-run one recorded input; -> description of the difference or None"""
+    _install()
+    c = inp["case"]
+    if "sequence" in c:
+        return _run_sequence(c)
+    try:
+        ser = _execute(inp["routine"], c, "no")[0]
+        par = _execute(inp["routine"], c, c.get("parallel", "yes"))[0]
+        d = _first_diff(_bytes_of(par), _bytes_of(ser), inp["routine"])
+        if not d and c.get("pool") != "fake" and len(_observed_order()) != c["LF"]:
+            d = "the pool ran %d tasks for %d frequencies" % (len(_observed_order()), c["LF"])
+        if not d and c.get("pool") != "fake" and c["maxcpu"]:
+            pids = {int(_PIDS[j]) for j in set(_observed_order())}
+            if len(pids) > c["maxcpu"]:
+                d = "tasks ran in %d different worker processes with maxcpu=%d" % (len(pids), c["maxcpu"])
+        if d and c.get("pool") == "fake":
+            # seen under the controlled scheduler: say whether the real pool shows it too (same wanted order, forced by delays)
+            c2 = dict(c, pool="real", gap=0.05)
+            c2.pop("cpu", None)
+            if c2.get("parallel") == "auto":
+                c2["parallel"] = "yes"
+            try:
+                d2 = _first_diff(_bytes_of(_execute(inp["routine"], c2, c2.get("parallel", "yes"))[0]), _bytes_of(ser), inp["routine"])
+            except Exception as e:  # noqa: BLE001
+                d2 = "exception %s: %s" % (type(e).__name__, e)
+            d += " [recording pool, tasks executed in order %s; real pool with that completion order forced: %s]" % (
+                c.get("order"), d2 or "no difference")
+        return d
+    except Exception as e:
+        return "exception %s: %s" % (type(e).__name__, e)
 
 
 def search(ctx, hints):
@@ -518,34 +1252,104 @@ def search(ctx, hints):
     # replay holds an input confirmed twice, and report them as failing inputs
     seen = set()
     for h in hints:
-        if not h["stream"].startswith("parallel-vs-serial") or not h.get("input"):
+        if not (h["stream"].startswith("parallel-vs-serial") or h["stream"].startswith("parallel-call-sequence")) or not h.get("input"):
             continue
         inp = h["input"]
         key = repr(inp)
         if key in seen:
             continue
         seen.add(key)
-        run = _run_srs if inp["routine"] == "srs" else _run_fde
-        try:
-            _install()
-            d = _first_diff(_bytes_of(run(inp["case"], "yes")), _bytes_of(run(inp["case"], "no")), inp["routine"])
-        except Exception as e:
-            d = "exception %s: %s" % (type(e).__name__, e)
+        d = _confirm(inp)
         if d:
             ctx.fail(_family(inp["routine"], inp["case"], d), d, inp, d, "bit-identical outputs")
         if len(ctx.failures) >= 5:
             break
+    # documented behaviour of the options, on the public API (fdepsd reports what it did)
+    _doc_oracle(ctx)
+
+
+def _doc_oracle(ctx):
+    """`parallel='no'` -> serial with ncpu 1; 'yes' -> parallel with 1 <= ncpu <= cpu count and ncpu <= maxcpu
+    ("maximum number of CPUs to use"); maxcpu=None -> 4/5 of the CPUs above four CPUs; anything else raises"""
+    from pyyeti import fdepsd, srs
+
+    _install()
+    r = np.random.default_rng(ctx.seed)
+    sig = r.standard_normal(500)
+    freq = np.array([10.0, 20.0, 30.0])
+    ncpu_box = mp.cpu_count()
+    for par, mc in [("no", 3), ("yes", 1), ("yes", 2), ("yes", None), ("yes", 10 ** 6)]:
+        _set_delays(3, "none", 0)
+        try:
+            with warnings.catch_warnings(), _deadline(180):
+                warnings.simplefilter("ignore")
+                ns = fdepsd.fdepsd(sig, 400.0, freq, 15.0, parallel=par, maxcpu=mc, verbose=False, rolloff="none", winends=None)
+        except Exception as e:  # noqa: BLE001 - the serial call of the same input returns (checked first in the loop)
+            ctx.fail("parallel-path-raises:fdepsd", "fdepsd(parallel=%r, maxcpu=%r) raises %s: %s" % (par, mc, type(e).__name__, str(e)[:200]),
+                     {"routine": "fdepsd-options", "case": {"parallel": par, "maxcpu": mc}}, type(e).__name__,
+                     "the result of parallel='no'")
+            if par == "no":
+                return
+            continue
+        ok = ns.parallel == par and 1 <= ns.ncpu <= ncpu_box
+        if par == "no":
+            ok = ok and ns.ncpu == 1
+        elif mc is not None:
+            ok = ok and ns.ncpu <= mc
+        else:
+            ok = ok and ns.ncpu == ((ncpu_box * 4) // 5 if ncpu_box > 4 else ncpu_box)
+        ctx.evaluations += 1
+        if not ok:
+            ctx.fail("parallel-option-not-honoured:parallel=%s:maxcpu=%s" % (par, "None" if mc is None else "int"),
+                     "fdepsd(parallel=%r, maxcpu=%r) reports parallel=%r ncpu=%r on a %d-cpu machine" % (par, mc, ns.parallel, ns.ncpu, ncpu_box),
+                     {"routine": "fdepsd-options", "case": {"parallel": par, "maxcpu": mc}}, [ns.parallel, ns.ncpu],
+                     "parallel echoed, 1 <= ncpu <= min(cpu count, maxcpu)")
+    # `peak` is documented as "a string or a function": a function that cannot be pickled (a lambda, a function
+    # defined inside another one) must give what parallel='no' gives.  Regression guard for F53 (repaired: srs.srs now
+    # runs such a function serially; before, the task tuple holding it was pickled and the parallel path raised).
+    if REPORT_UNPICKLABLE_PEAK:
+        local_peak = lambda x: abs(x).max(axis=0)  # noqa: E731
+        with warnings.catch_warnings():
+            warnings.simplefilter("ignore")
+            ref = srs.srs(sig, 400.0, freq, 15.0, peak=local_peak, parallel="no")
+            ctx.evaluations += 1
+            try:
+                with _deadline(180):
+                    got = srs.srs(sig, 400.0, freq, 15.0, peak=local_peak, parallel="yes", maxcpu=2)
+                d = _first_diff(_bytes_of(got), _bytes_of(ref), "srs")
+                if d:
+                    ctx.fail("parallel-differs-from-serial:srs", d, {"routine": "srs-options", "case": {"peak": "lambda"}}, d,
+                             "bit-identical outputs")
+            except Exception as e:  # noqa: BLE001
+                ctx.fail(FIXED_F53,
+                         "srs(sig, sr, freq, Q, peak=<lambda>, parallel='yes') raises %s: %s; parallel='no' returns the spectrum "
+                         "(with the default parallel='auto' the same happens as soon as sig.size > 50000 and len(freq) > 1)"
+                         % (type(e).__name__, str(e)[:160]),
+                         {"routine": "srs-options", "case": {"peak": "lambda x: abs(x).max(axis=0)", "parallel": "yes", "maxcpu": 2,
+                                                             "sig": "default_rng(seed).standard_normal(500)", "sr": 400.0,
+                                                             "freq": [10.0, 20.0, 30.0], "Q": 15.0}},
+                         type(e).__name__, "the spectrum parallel='no' returns")
+    for bad in ("maybe", "", "Yes"):
+        try:
+            with warnings.catch_warnings():
+                warnings.simplefilter("ignore")
+                srs.srs(sig, 400.0, freq, 15.0, parallel=bad)
+            ctx.fail("invalid-parallel-option-accepted", "srs(parallel=%r) did not raise" % bad,
+                     {"routine": "srs-options", "case": {"parallel": bad}}, "no exception", "ValueError")
+        except ValueError:
+            pass
+        ctx.evaluations += 1
 
 
 def replay(ctx, data):
     f = data["failure"]
     inp = f["input"]
-    _install()
-    run = _run_srs if inp["routine"] == "srs" else _run_fde
-    try:
-        d = _first_diff(_bytes_of(run(inp["case"], "yes")), _bytes_of(run(inp["case"], "no")), inp["routine"])
-    except Exception as e:
-        d = "exception %s: %s" % (type(e).__name__, e)
+    if inp.get("routine") in ("fdepsd-options", "srs-options"):
+        n0 = len(ctx.failures)
+        _doc_oracle(ctx)
+        same = [x for x in ctx.failures[n0:] if x["family"] == f["family"]]
+        return same[0] if same else None
+    d = _confirm(inp)
     if d:
         return {"family": f["family"], "what": d, "input": inp}
     return None
